@@ -200,6 +200,7 @@ func classify(m sg.Model, obs *vf.Obs) {
 	for _, s := range m.Sources {
 		o.Class("source_" + strings.NewReplacer("/", "_").Replace(s.Type))
 		o.ClassIf(len(s.RandKeys) > 0, "variables_rand_func")
+		o.ClassIf(len(s.TypedKeys) > 0, "variables_number_or_bool")
 		switch s.Type {
 		case sg.SourceCSV:
 			opt(s.Fields != nil)
